@@ -1231,7 +1231,12 @@ def run_nonvacuity(tier="quick", seed=0):
         if c.prop != "C06" or not cid.endswith("[forwarding]"):
             continue
         ok_runs, failed = 0, []
-        for k in range(tries):
+        # the probe is random: keep going (up to `max_tries`) until the primitive has succeeded at least once, so
+        # that an unlucky stream of literals is not mistaken for a contract that excludes everything
+        max_tries = 40 * tries
+        k = -1
+        while k + 1 < tries or (ok_runs == 0 and k + 1 < max_tries):
+            k += 1
             ctx = ConcreteCtx(rng=random.Random(rng.random()), lo=0, hi=(0, 1, 6)[k % 3])
             old = set_ctx(ctx)
             try:
@@ -1253,10 +1258,10 @@ def run_nonvacuity(tier="quick", seed=0):
                 failed.append(f"native run crashed: {type(e).__name__}")
             finally:
                 set_ctx(old)
-        res["bounded"].append(dict(target=cid, bound=f"{tries} random concrete shapes, native run", cases=ok_runs,
+        res["bounded"].append(dict(target=cid, bound=f"{k + 1} random concrete shapes, native run", cases=ok_runs,
                                    failed=len(failed)))
         if ok_runs == 0:
-            res["undecided"].append(f"{cid}: the primitive never succeeded on {tries} random shapes (vacuous contract?)")
+            res["undecided"].append(f"{cid}: the primitive never succeeded on {k + 1} random shapes (vacuous contract?)")
     res["solver_time_s"] = round(time.time() - t0, 2)
     return res
 
